@@ -138,19 +138,12 @@ func vhUnexpired(alpha []vhVEntry, now time.Time) []vhVEntry {
 }
 
 func vhValidReachable(v *ValidReplayer, m *Message) bool {
-	if verifSymbolic() {
-		return verifReachable(v, m)
-	}
-	for _, e := range v.messages.buf[:cap(v.messages.buf)] {
-		if e.message == m {
-			return true
-		}
-	}
-	return false
+	return verifReachable(v, m)
 }
 
 func vhC09GC() {
 	p := vhValidBuild()
+	vhValidPreReplay(p)
 	p.r.GC()
 	alpha2 := vhValidAlpha("C09/GC", p.r)
 	want := vhUnexpired(p.alpha, p.now)
@@ -168,6 +161,7 @@ func vhC09GC() {
 func vhC09Put() {
 	p := vhValidBuild()
 	v := p.r
+	vhValidPreReplay(p)
 	var curBefore uint64
 	if p.auto {
 		curBefore = *v.currentID
@@ -345,4 +339,28 @@ func vhC09New() {
 	alpha := vhValidAlpha("C09/New", v)
 	verifAssert(len(alpha) == 0, "C09/New/empty")
 	verifAssert((v.currentID != nil) == auto && v.ttl == time.Duration(ttl), "C09/New/configured")
+}
+
+// vhValidPreReplay (PREREPLAY=1): an earlier Replay - at a moment when nothing buffered had
+// expired yet - to a client whose k-th Send fails. It leaves nothing behind in the replayer.
+func vhValidPreReplay(p vhValidPre) {
+	if verifParam("PREREPLAY", 0) == 0 || len(p.alpha) == 0 {
+		return
+	}
+	var all []string
+	for _, e := range p.alpha {
+		all = append(all, e.topics...)
+	}
+	early := p.alpha[0].exp.Add(-1)
+	if early.After(p.now) {
+		early = p.now
+	}
+	lid := p.alpha[0].msg.ID
+	if p.auto && p.first > 0 {
+		lid = ID(strconv.FormatUint(p.first-1, 10))
+	}
+	nowFn := p.r.Now
+	p.r.Now = func() time.Time { return early }
+	vhPreReplay(p.r, lid, all)
+	p.r.Now = nowFn
 }
